@@ -98,11 +98,24 @@ def gen_case(rng, sub=False):
     return line
 
 
+def running_cases(rng, tier):
+    """The servers NGINX is *running* with (last written file, overridden by NGINX Plus API pushes) after endpoint changes, through
+    the real controller over the recording Manager: after every burst the harness regenerates every served resource from the stores
+    with a fresh Configurator and reports the upstreams whose running server list differs (`END|u:<upstream>`)."""
+    cases = []
+    seqs = ["+e1.0/s1/a+b;-e1.0;+e1.0/s1/c", "+e1.0/s1/a;+e1.0/s1/_;+e1.0/s1/b", "+e1.0/s1/a+b;+e1.1/s1/c;-e1.0;-e1.1", "+e1.0/s1/a;+e1.0/s1/a+c;+e1.0/s1/c"]
+    for plus in (0, 1):
+        for res in ("+v1/s1/0", "+i1/s1/0", "+t1/s1/0", "+v1/s1/0&+i1/s1/0"):
+            for sq in seqs:
+                cases.append(dict(line="lbc plus=%d dssl=1 rf=_ af=_ bursts=+s1/0&%s;%s" % (plus, res, sq), tags=["running-upstream", "plus" if plus else "oss"], nontrivial=True))
+    return cases
+
+
 def gen(rng, tier):
     n = 1000 if tier == "quick" else 20000
     cases = [dict(line=gen_case(rng), tags=["backend"], nontrivial=True) for _ in range(n)]
     cases += [dict(line=gen_case(rng, sub=True), tags=["subselector"], nontrivial=True) for _ in range(n // 4)]
-    return cases
+    return cases + running_cases(rng, tier)
 
 
 def corpus():
@@ -173,6 +186,29 @@ def spec_servers(kv):
 
 
 def judge(case, impl, model, spec):
+    if case["line"].startswith("lbc "):
+        if impl is None or "END|" not in impl:
+            return dict(corr="harness: %r" % (impl or "")[:200])
+        stale = [x for seg in impl.split(",") if seg.startswith("END|") for x in seg[4:].split("+") if x.startswith("u:")]
+        if stale:
+            return dict(spec="after an endpoint change the written server list differs from the ready endpoints for " + ",".join(sorted(set(stale))))
+        # what NGINX runs with: the files as of the last successful reload, overridden by successful NGINX Plus API pushes
+        written, running = {}, {}
+        for seg in impl.split(","):
+            f = seg.split("|")
+            if f[0] == "S" and f[1].startswith("u:"):
+                written[f[1]] = f[2] if len(f) > 2 else ""
+            elif f[0] == "X" and f[1].startswith("u:"):
+                written.pop(f[1], None)
+            elif f[0] == "R" and f[1] == "ok":
+                running = dict(written)
+            elif f[0] == "A" and f[-1] == "ok":
+                running[f[1]] = f[2]
+            elif f[0] == "END":
+                bad = sorted(u for u in written if running.get(u) != written[u])
+                if bad:
+                    return dict(spec="NGINX keeps running with servers [%s] for %s while the ready endpoints are [%s]" % (running.get(bad[0]), bad[0], written[bad[0]]))
+        return dict(nontrivial=True)
     if impl is None or model is None:
         return dict(corr="missing output impl=%r model=%r" % (impl, model))
     kv = dict(x.split("=", 1) for x in case["line"].split()[1:])
